@@ -64,3 +64,41 @@ def split_out(out, *markers):
             cur.append(t)
     parts.append(cur)
     return parts
+
+
+def sibling(rng, b):
+    """a bundle with the SAME identity (source, creation timestamp, fragment offset, CRC types) as b but different other fields:
+    what a per-thread cache keyed by the bundle ID would confuse with b"""
+    import copy
+    c = copy.deepcopy(b)
+    p = c["p"]
+    k = rng.randrange(6)
+    if k == 0:
+        p["life"] = (p["life"] + rng.choice([1, 1000, 2 ** 32])) % 2 ** 64
+    elif k == 1:
+        p["dst"] = genb.rnd_eid(rng)
+    elif k == 2:
+        p["rpt"] = genb.rnd_eid(rng)
+    elif k == 3:
+        p["flags"] ^= rng.choice([0x4, 0x20, 0x40, 0x4000, 0x10000, 0x20000, 0x40000]) if not (p["flags"] & 1) else rng.choice([0x20, 0x40, 0x4000])
+    elif k == 4 and (p["flags"] & 1):
+        p["flen"] = (p["flen"] + 1) % 2 ** 64
+    else:
+        p["life"] = (p["life"] * 3 + 7) % 2 ** 64
+        p["dst"] = genb.rnd_eid(rng)
+    if rng.random() < 0.3 and c["cs"]:
+        blk = c["cs"][-1]
+        if blk["data"][0] == "DATA":
+            blk["data"] = ("DATA", blk["data"][1] + b"!")
+    return c
+
+
+def pair_lines(rng, n, mk_line):
+    """PAIR lines: a bundle, then a sibling with the same identity (and sometimes the first one again), by one thread"""
+    out = []
+    for _ in range(n):
+        b = genb.reorder(rng, genb.rnd_bundle(rng, nblocks=rng.randrange(0, 4), crc_kind=rng.choice([None, 0, 1, 2])))
+        c = sibling(rng, b)
+        parts = [mk_line(b), mk_line(c)] + ([mk_line(b)] if rng.random() < 0.3 else [])
+        out.append("PAIR " + " || ".join(parts))
+    return out
